@@ -2,7 +2,7 @@
 prologue run on symbolic code strings (BVRE), against the reference 'the identifier token occurs'."""
 import itertools
 import z3
-from .. import corpus
+from .. import corpus, tv
 from ..shim.bvre import SymS, cls_pred
 from ..shim.symstr import SymStr, Shim2, run_real_with, model_string
 
@@ -47,6 +47,9 @@ def token_occurs(code, tok):
     return z3.Or(*alts)
 
 
+XS = {}  # cvc5 verdicts on the queries z3 answered unsat
+
+
 def check_instruction_flags():
     """RZILInstruction.__init__: token hi occurs => needs_hi truthy; token pkt occurs => needs_pkt truthy."""
     corpus.quiet_imports()
@@ -71,6 +74,9 @@ def check_instruction_flags():
             s.push()
             s.add(token_occurs(code, tok))
             r = str(s.check())
+            if r == "unsat":  # second solver on the same assertions
+                x = tv.cvc5_decide(s.to_smt2(), 30000).split(":")[0]
+                XS[x] = XS.get(x, 0) + 1
             cex = model_string(s.model(), [(code, z3.IntVal(0), code.L)], N) if r == "sat" else None
             s.pop()
             out.append((f"shim:RZILInstruction.needs_{tok}:decisions={dec}", r, cex, tok))
@@ -111,6 +117,9 @@ def check_subroutine_prologue():
             s.push()
             s.add(token_occurs(code, tok))
             r = str(s.check())
+            if r == "unsat":  # second solver on the same assertions
+                x = tv.cvc5_decide(s.to_smt2(), 30000).split(":")[0]
+                XS[x] = XS.get(x, 0) + 1
             cex = model_string(s.model(), [(code, z3.IntVal(0), code.L)], N) if r == "sat" else None
             s.pop()
             out.append((f"shim:SubRoutine.prologue_{tok}:decisions={dec}", r, cex, tok))
@@ -118,6 +127,15 @@ def check_subroutine_prologue():
 
 
 def run_all(rep):
+    n = _run_all(rep)
+    for k, v in sorted(XS.items()):
+        rep.count_query("cvc5:" + k, v)
+    if XS.get("sat"):
+        rep.harness_error(f"metadata shim: z3 answers unsat, cvc5 answers sat on {XS['sat']} of the same assertion sets")
+    return n
+
+
+def _run_all(rep):
     from rzilcompiler.Compiler import RZILInstruction
     from rzilcompiler.Transformer.Hybrids.SubRoutine import SubRoutine
     n = 0
